@@ -88,7 +88,7 @@ struct StateProp : Prop {
 						// re-login at an address that is free now - preferably one another board has just left (the addresses are swapped)
 						std::vector<uint8_t> na;
 						for (auto &y : ns) if (!y.present && y.addr.size() == 1 && !y.iface && y.addr != ns[k].addr && r.coin()) { bool used = false; for (auto &z : ns) if (z.present && z.addr == y.addr) used = true; if (!used) na = y.addr; }
-						if (na.empty()) { na = {(uint8_t) r.range(70, 120)}; for (auto &y : ns) if (y.addr == na) na.clear(); }
+						if (na.empty()) { na = {(uint8_t) r.range(70, 120)}; for (auto &y : ns) if (y.addr == na) na.clear(); for (auto &u : w.unknown) if (u.addr == na) na.clear(); }
 						if (!na.empty() && ns[k].addr.size() == 1) { e.set("as", pc::jaddr(na)); ns[k].addr = na; }
 					}
 					ns[k].present = true;
